@@ -20,7 +20,7 @@ func siteR(kind, name, typ, pkg string) *jg.Site {
 }
 
 var c02ExprNames = []string{"implicit", "this-call", "field-imported", "field-project", "param", "local", "static", "chained",
-	"nested-arg", "new", "new-with-arg-call", "lambda", "this-field", "param-project", "new-generic", "new-qualified", "new-then-call", "new-in-lambda", "new-as-argument", "local-of-declared-type-initialised-with-other-new", "field-of-project-interface-via-on-demand-import"}
+	"nested-arg", "new", "new-with-arg-call", "lambda", "this-field", "param-project", "new-generic", "new-qualified", "new-then-call", "new-in-lambda", "new-as-argument", "local-of-declared-type-initialised-with-other-new", "field-of-project-interface-via-on-demand-import", "final-local", "parameter-used-after-being-passed-next-to-a-creation"}
 
 // c02Expr returns (prefix statements needed before, expression fragments).
 func c02Expr(kind string, uniq string) (pre []jg.Stmt, e []jg.Frag) {
@@ -30,6 +30,14 @@ func c02Expr(kind string, uniq string) (pre []jg.Stmt, e []jg.Frag) {
 	case "field-of-project-interface-via-on-demand-import":
 		// the declared type is a project interface of another package, visible only through `import app.api.*;`
 		e = []jg.Frag{jg.T("notifier."), jg.S(siteR("call", "send", "Notifier", "app.api")), jg.T("()")}
+	case "final-local":
+		v := "fl" + uniq
+		pre = []jg.Stmt{jg.St(jg.T("final Tool " + v + " = null;"))}
+		e = []jg.Frag{jg.T(v + "."), jg.S(siteR("call", "use", "Tool", "other")), jg.T("()")}
+	case "parameter-used-after-being-passed-next-to-a-creation":
+		// `doIt3(pr, new Helper())` must not change what `pr` is
+		pre = []jg.Stmt{jg.St(jg.S(siteR("call", "doIt3", "Svc", "app")), jg.T("(pr, new "), jg.S(site("new", "Helper")), jg.T("());"))}
+		e = []jg.Frag{jg.T("pr."), jg.S(siteR("call", "find", "Repo", "lib")), jg.T("()")}
 	case "this-call":
 		e = []jg.Frag{jg.T("this."), jg.S(site("call", "doIt")), jg.T("()")}
 	case "field-imported":
@@ -150,7 +158,14 @@ func c02Gen(c *engine.C) engine.Case {
 		jg.Member{Field: &jg.Field{Mods: []string{"private"}, Type: "Helper", Name: "aux"}},
 		jg.Member{Field: &jg.Field{Mods: []string{"private"}, Type: "Notifier", Name: "notifier"}},
 	)
-	reuse := engine.PickTag(c, "name-reuse", "none", "param-then-local", "param-shadows-field", "locals-in-siblings", "local-shadows-field", "field-then-param-other-method")
+	reuse := engine.PickTag(c, "name-reuse", "none", "param-then-local", "param-shadows-field", "locals-in-siblings", "local-shadows-field", "field-then-param-other-method", "constructor-names-then-fields-in-method")
+	if reuse == "constructor-names-then-fields-in-method" {
+		// a constructor with a parameter and a local named like fields of OTHER types, before the methods that use the fields
+		svc.Members = append(svc.Members, jg.Member{Method: &jg.Method{Mods: []string{"public"}, IsCtor: true, Name: "Svc",
+			Params: []jg.Param{{Type: "Tool", Name: "aux"}},
+			Body: []jg.Stmt{jg.St(jg.T("aux."), jg.S(siteR("call", "use", "Tool", "other")), jg.T("();")),
+				jg.St(jg.T("Tool helper = null;")), jg.St(jg.T("helper."), jg.S(siteR("call", "use", "Tool", "other")), jg.T("();"))}}})
+	}
 	nMethods := []int{2, 1, 3}[c.Choose(3, "methods")]
 	for mi := 0; mi < nMethods; mi++ {
 		m := &jg.Method{Mods: []string{"public"}, Ret: "Object", Name: fmt.Sprintf("m%d", mi),
@@ -177,6 +192,11 @@ func c02Gen(c *engine.C) engine.Case {
 		}
 		// name-reuse scenarios
 		switch reuse {
+		case "constructor-names-then-fields-in-method":
+			if mi == 0 {
+				m.Body = append(m.Body, jg.St(jg.T("aux."), jg.S(siteR("call", "help", "Helper", "app")), jg.T("();")),
+					jg.St(jg.T("helper."), jg.S(siteR("call", "help", "Helper", "app")), jg.T("();")))
+			}
 		case "param-then-local":
 			if mi == 0 {
 				m.Params = append(m.Params, jg.Param{Type: "Repo", Name: "v"})
@@ -213,7 +233,9 @@ func c02Gen(c *engine.C) engine.Case {
 		}
 		svc.Members = append(svc.Members, jg.Member{Method: m})
 		// what follows the function: calls written there belong to no named function
-		switch engine.PickTag(c, fmt.Sprintf("after-m%d", mi), "nothing", "field-initialised-by-call", "field-initialised-by-new", "instance-initialiser", "static-initialiser") {
+		switch engine.PickTag(c, fmt.Sprintf("after-m%d", mi), "nothing", "field-initialised-by-call", "field-initialised-by-new", "instance-initialiser", "static-initialiser", "instance-initialiser-with-a-local-named-like-a-field") {
+		case "instance-initialiser-with-a-local-named-like-a-field":
+			svc.Members = append(svc.Members, jg.Member{Raw: "{\n    Tool helper = null;\n}"})
 		case "field-initialised-by-call":
 			svc.Members = append(svc.Members, jg.Member{Field: &jg.Field{Mods: []string{"private"}, Type: "Tool", Name: fmt.Sprintf("later%d", mi), Init: []jg.Frag{jg.T("Tool.make()")}}})
 		case "field-initialised-by-new":
@@ -228,6 +250,7 @@ func c02Gen(c *engine.C) engine.Case {
 	for _, stub := range []string{"doIt", "other", "handle"} {
 		svc.Members = append(svc.Members, jg.Member{Method: &jg.Method{Mods: []string{"private"}, Ret: "Object", Name: stub, Body: []jg.Stmt{jg.St(jg.T("return null;"))}}})
 	}
+	svc.Members = append(svc.Members, jg.Member{Method: &jg.Method{Mods: []string{"private"}, Ret: "Object", Name: "doIt3", Params: []jg.Param{{Type: "Object", Name: "x"}, {Type: "Object", Name: "y"}}, Body: []jg.Stmt{jg.St(jg.T("return y;"))}}})
 	svc.Members = append(svc.Members, jg.Member{Method: &jg.Method{Mods: []string{"private"}, Ret: "Object", Name: "doIt2", Params: []jg.Param{{Type: "Object", Name: "x"}}, Body: []jg.Stmt{jg.St(jg.T("return x;"))}}})
 
 	helper := &jg.Class{Pkg: "app", Name: "Helper", Kind: "class", Mods: []string{"public"},
